@@ -211,6 +211,55 @@ static void teardown(void *vs)
     __real_free(s);
 }
 
+#if TRACKED
+/* ---- many live blocks: n around 127/255/256/1000/70000 tracked allocations (the table is re-allocated and searched as it grows), then
+ * realloc of the first, the last and a middle block, free in three orders; the table is compared with the live set after every phase */
+static const int MANY[] = { 126, 127, 128, 254, 255, 256, 257, 300, 1000, 66000 };
+#if defined(__SANITIZE_ADDRESS__) || (defined(__has_feature) && __has_feature(address_sanitizer))
+# define NMANY 9        /* under ASan every realloc of the growing table is a copy: the 66000-block case belongs to the plain build */
+#else
+# define NMANY ((int) (sizeof MANY / sizeof MANY[0]))
+#endif
+static void many_desc(uint64_t idx, void *ctx, char *b, size_t n) { (void) ctx; snprintf(b, n, "%d tracked MALLOC(16) blocks, REALLOC of the first/last/middle one, FREE (of all; of 600 when n > 4000) in %s order", MANY[idx / 3], idx % 3 == 0 ? "ascending" : (idx % 3 == 1 ? "descending" : "odd-then-even")); }
+static int many_check(void **pp, size_t *sz, int n, const char *shape, const char *when)
+{
+    size_t live = 0; for (int i = 0; i < n; i++) if (pp[i]) live++;
+    if (malloc_rec.cnt != live) { FAIL("spifmem", "model:record-count", shape, "%s: table holds %lu records, %zu tracked blocks are live", when, (unsigned long) malloc_rec.cnt, live); return 0; }
+    /* every record names a live block with its size; the search is by sorted copy to stay n log n */
+    for (size_t k = 0; k < malloc_rec.cnt; k += (malloc_rec.cnt > 4000 ? 97 : 1)) {
+        void *q = malloc_rec.ptrs[k].ptr; int lo = -1;
+        for (int i = 0; i < n; i++) if (pp[i] == q) { lo = i; break; }
+        if (lo < 0) { FAIL("spifmem", "model:record-for-dead-block", shape, "%s: record %zu names a block that is not live", when, k); return 0; }
+        if (malloc_rec.ptrs[k].size != sz[lo]) { FAIL("spifmem", "model:record-size", shape, "%s: record size %lu, last requested %zu", when, (unsigned long) malloc_rec.ptrs[k].size, sz[lo]); return 0; }
+    }
+    return 1;
+}
+static void many_case(uint64_t idx, void *ctx)
+{
+    int n = MANY[idx / 3], order = (int) (idx % 3); (void) ctx;
+    char shape[48]; snprintf(shape, sizeof shape, "%s live blocks", n < 256 ? "fewer than 256" : (n < 65536 ? "256..65535" : "65536 or more")); mc_set_shape(shape);
+    libast_debug_level = 5; malloc_rec.cnt = 0; g_ndead = 0; g_realloc_mode = 0;
+    void **pp = __real_calloc((size_t) n, sizeof *pp); size_t *sz = __real_calloc((size_t) n, sizeof *sz);
+    for (int i = 0; i < n; i++) { pp[i] = MALLOC(16); sz[i] = 16; if (!pp[i]) { FAIL("spifmem", "model:null", shape, "MALLOC returned NULL"); goto out; } }
+    if (!many_check(pp, sz, n, shape, "after the allocations")) goto out;
+    { int w[3] = { 0, n - 1, n / 2 }; for (int r = 0; r < 3; r++) { pp[w[r]] = REALLOC(pp[w[r]], 48); sz[w[r]] = 48; } }
+    if (!many_check(pp, sz, n, shape, "after three REALLOCs")) goto out;
+    int nfree = n > 4000 ? 600 : n;             /* the table is searched linearly: of a very large one only 600 blocks are freed through the tracker */
+    for (int k = 0; k < nfree; k++) {
+        int i = order == 0 ? k : (order == 1 ? n - 1 - k : (k < (n + 1) / 2 ? 2 * k : 2 * (k - (n + 1) / 2) + 1));
+        if (i >= n) continue;
+        FREE(pp[i]); pp[i] = NULL;
+        if (k == nfree / 2 && !many_check(pp, sz, n, shape, "half-way through the FREEs")) goto out;
+    }
+    many_check(pp, sz, n, shape, "after the FREEs");
+out:
+    for (int i = 0; i < n; i++) if (pp[i]) { libast_debug_level = 0; __real_free(pp[i]); }
+    malloc_rec.cnt = 0; libast_debug_level = 0;
+    __real_free(pp); __real_free(sz);
+    mc_nontrivial();
+    mc_outcome(idx);
+}
+#endif
 int main(int argc, char **argv)
 {
     mc_init("C15", argc, argv);
@@ -219,12 +268,15 @@ int main(int argc, char **argv)
     mc_info("alphabet", "DEBUG=%d build; pool of %d pointers; %d opcodes: MALLOC(8|64), CALLOC, STRDUP, REALLOC(NULL), REALLOC(p,0|8|64) x {allocator moves, stays}, FREE, FREE/REALLOC of an untracked block, "
             "of an already-freed pointer, FREE(NULL); runtime levels 5 and 4; file names shorter than, exactly and longer than 20 characters", DEBUG, P, NOPS);
     int levels[2] = { 5, 4 };
-    for (int li = 0; li < 2; li++) {
+    for (int li = 0; li < 2 && !mc_arg("only", NULL); li++) {
         LEVEL = levels[li];
         static char name[2][40]; snprintf(name[li], sizeof name[li], "memtrack_build%d_level%d", TRACKED ? 5 : 4, LEVEL);
         mc_sys sys = { name[li], NOPS, op_name, fresh, enabled, apply, NULL, canon, teardown, (int) mc_arg_int("lookahead", 1) };
         mc_e1_run(&sys, (int) mc_arg_int("depth", 40));
     }
     libast_debug_level = 0;
+#if TRACKED
+    mc_e2_level("many_blocks", 66000, (uint64_t) NMANY * 3, many_case, many_desc, NULL);
+#endif
     return mc_finish();
 }
